@@ -116,6 +116,15 @@ func (r *runner) expectedTagsD(path string, memo map[string]map[string]string, d
 	return m
 }
 
+func (r *runner) hasTagger() bool {
+	for _, p := range r.spec.Procs {
+		if p.Kind == "tagger" {
+			return true
+		}
+	}
+	return false
+}
+
 func sameMap(a, b map[string]string) bool {
 	if len(a) != len(b) {
 		return false
@@ -172,9 +181,19 @@ func (r *runner) compareRecordS(path string, rec *auditRec, where string, o *Obs
 	// "tags attached upstream are present on every downstream record": the expected tags must be
 	// there (extra tags are not judged here; a nested record that differs from the file's own
 	// record on disk is caught by the differential comparison below)
-	for k, v := range r.expectedTagsD(path, memo, !sibling) {
+	want := r.expectedTagsD(path, memo, !sibling)
+	for k, v := range want {
 		if rec.Tags[k] != v {
 			add("audit-tags", fmt.Sprintf("%s: tag %s=%s attached upstream is missing (Tags %v)", where, k, v, rec.Tags))
+		}
+	}
+	if !r.hasTagger() {
+		// nothing in this workflow attaches tags: a record carries none (with a tagging component in the
+		// workflow a sibling's view is schedule-dependent, so extra tags are not judged there)
+		for k, v := range rec.Tags {
+			if _, ok := want[k]; !ok {
+				add("audit-tags-foreign", fmt.Sprintf("%s: tag %s=%s was never attached in this run (Tags %v)", where, k, v, rec.Tags))
+			}
 		}
 	}
 	// "it contains the full audit record of every input file": a nested record equals the record
